@@ -67,7 +67,10 @@ SetToSeq(S) == LET RECURSIVE go(_)
                IN go(S)
 
 Failures(c) ==
-  IF c.logic \notin LogicNames
+  IF c.phase = "names"
+  THEN (IF {c.names[k] : k \in 1..Len(c.names)} = LogicNames THEN <<>>
+        ELSE <<[id |-> c.id, logic |-> "", clause |-> "RegisteredLogics", operator |-> "", inputs |-> c.names, got |-> "", want |-> ""]>>)
+  ELSE IF c.logic \notin LogicNames
   THEN <<Fail(c, "UnknownLogic", "", <<>>, "", "")>>
   ELSE SetToSeq(EntryFailures(c) \cup CompleteFailures(c) \cup ValueFailures(c) \cup DefFailures(c))
 
